@@ -29,6 +29,8 @@ from ..c04_util import (
     Sandbox,
     SanWatch,
     constants,
+    asan_tuned,
+    maybe_reexec,
     pre_apply,
     pre_decrypt,
     pre_encrypt,
@@ -170,6 +172,7 @@ def plan(tier, seed):
 
 
 def run_batch(batch):
+    maybe_reexec()  # does not return when it re-executes the child with tuned ASAN_OPTIONS
     res = Result()
     t0 = time.time()
     watch = SanWatch()
@@ -178,6 +181,8 @@ def run_batch(batch):
     sb = Sandbox(res, watch, max_reforks=batch.get("max_reforks", 30), deadline=t0 + cap_s)
     use_fork = not batch.get("nofork")
     fn = GENERATORS[gen]
+    if gen == "probe":
+        res.count("asan_options_tuned", 1 if asan_tuned() else 0)
     fn(batch, res, sb, watch, use_fork)
     # anything the batch process itself produced outside a sandbox (should be nothing)
     if watch.dirty():
@@ -741,9 +746,428 @@ def _specdesc(spec):
     return ",".join(parts) or "no-args"
 
 
+# =====================================================================================
+# W2 - AEAD / HeaderProtection called directly
+# =====================================================================================
+
+PATTERN = bytes((i * 73 + 11) & 0xFF for i in range(70000))
+AD_LENS = (0, 1, 20, 60, 300)
+PN_POOL = (0, 1, 0xFFFFFFFF, (1 << 62) - 1)
+KAT_PT = b"C04 known answer plaintext 0123456789"
+KAT_AD = b"\x43\x00\x01\x02\x03\x04\x05\x06\x07\x00\x2a"
+KAT_HDR = b"\x41" + bytes(range(8)) + b"\x12\x34"
+KAT_PAYLOAD = bytes(range(40))
+
+
+class Grid:
+    """lazy cartesian product; item i -> tuple"""
+
+    def __init__(self, *dims):
+        self.dims = [list(d) for d in dims]
+        n = 1
+        for d in self.dims:
+            n *= len(d)
+        self.n = n
+
+    def __len__(self):
+        return self.n
+
+    def __getitem__(self, i):
+        if not 0 <= i < self.n:
+            raise IndexError(i)
+        out = []
+        for d in reversed(self.dims):
+            i, k = divmod(i, len(d))
+            out.append(d[k])
+        return tuple(reversed(out))
+
+
+class Indexed:
+    """sequence of (index, item) restricted by the replay filter"""
+
+    def __init__(self, seq, only=None):
+        self.seq = seq
+        self.idx = [i for i in only if 0 <= i < len(seq)] if only is not None else None
+
+    def __len__(self):
+        return len(self.idx) if self.idx is not None else len(self.seq)
+
+    def __getitem__(self, k):
+        i = self.idx[k] if self.idx is not None else k
+        return (i, self.seq[i])
+
+
+def _suite_objs(suite):
+    """fresh C objects + references for a suite with fixed keys"""
+    from aioquic._crypto import AEAD, HeaderProtection
+
+    aead_name, hp_name, klen, kind = SUITES[suite]
+    key = bytes((0x10 + 3 * i) & 0xFF for i in range(klen))
+    iv = bytes((0xA0 + 5 * i) & 0xFF for i in range(12))
+    hpk = bytes((0x77 + 11 * i) & 0xFF for i in range(klen))
+    return {
+        "aead": AEAD(aead_name, key, iv),
+        "hp": HeaderProtection(hp_name, hpk),
+        "ref_aead": Ref(kind, key=key, iv=iv),
+        "ref_hp": Ref(kind, hp=hpk),
+        "suite": suite,
+    }
+
+
+def _lenb(n, c):
+    """boundary-relative bucket of a length"""
+    mx = c["PACKET_LENGTH_MAX"]
+    for name, edge in (("0", 0), ("TAG", c["AEAD_TAG_LENGTH"]), ("MAX-TAG", mx - c["AEAD_TAG_LENGTH"]), ("MAX", mx)):
+        if abs(n - edge) <= 2:
+            return "%s%+d" % (name, n - edge)
+    return "~%d" % (n // 128 * 128)
+
+
+def _crypto_errors():
+    from aioquic._crypto import CryptoError
+
+    return CryptoError
+
+
+def _kat_aead(ctx, local, case, after):
+    """the object must still answer like the independent implementation"""
+    try:
+        ct = ctx["aead"].encrypt(KAT_PT, KAT_AD, 7)
+        pt = ctx["aead"].decrypt(ct, KAT_AD, 7)
+    except Exception as exc:
+        local.violation("unusable:AEAD:after-rejected-%s" % after, "known-answer encrypt/decrypt raised %r after a rejected %s" % (exc, after), case)
+        ctx.update(_suite_objs(ctx["suite"]))
+        return
+    if ct != ctx["ref_aead"].seal(KAT_PT, KAT_AD, 7) or pt != KAT_PT:
+        local.violation("unusable:AEAD:after-rejected-%s" % after, "known-answer encrypt/decrypt differs from the reference after a rejected %s" % after, case)
+        ctx.update(_suite_objs(ctx["suite"]))
+        return
+    local.count("w2_rejected_then_kat_ok")
+
+
+def _kat_hp(ctx, local, case, after):
+    try:
+        out = ctx["hp"].apply(KAT_HDR, KAT_PAYLOAD)
+        back = ctx["hp"].remove(out, len(KAT_HDR) - 2)
+    except Exception as exc:
+        local.violation("unusable:HeaderProtection:after-rejected-%s" % after, "known-answer apply/remove raised %r after a rejected %s" % (exc, after), case)
+        ctx.update(_suite_objs(ctx["suite"]))
+        return
+    if out != ctx["ref_hp"].apply(KAT_HDR, KAT_PAYLOAD) or tuple(back) != (KAT_HDR, 0x1234):
+        local.violation("unusable:HeaderProtection:after-rejected-%s" % after, "known-answer apply/remove differs from the reference after a rejected %s" % after, case)
+        ctx.update(_suite_objs(ctx["suite"]))
+        return
+    local.count("w2_rejected_then_kat_ok")
+
+
+def gen_w2_aead(batch, res, sb, watch, use_fork):
+    suite = batch["suite"]
+    c = constants()
+    lens = list(range(0, 1601)) + [1700, 2048, 4096, 16384, 65535]
+    cases = Indexed(lens, batch.get("only"))
+    mx, tag = c["PACKET_LENGTH_MAX"], c["AEAD_TAG_LENGTH"]
+
+    def group_of(item):
+        n = item[1]
+        return "aead:valid" if n <= mx - tag else ("aead:enc-oversize" if n <= mx else "aead:oversize")
+
+    def fn(ctx, item, local):
+        idx, n = item
+        case = _case_of(batch, idx)
+        CryptoError = _crypto_errors()
+        data = PATTERN[7 : 7 + n]
+        outcomes = set()
+        for ai, adl in enumerate(AD_LENS):
+            ad = PATTERN[300 + ai : 300 + ai + adl]
+            pn = PN_POOL[(n + ai) % len(PN_POOL)]
+            # ---- encrypt n plaintext bytes
+            local.count("w2_calls_checked")
+            ok = pre_encrypt(c, n)
+            try:
+                out = ctx["aead"].encrypt(data, ad, pn)
+                exc = None
+            except Exception as e:  # call under observation
+                exc, out = e, None
+            if exc is None:
+                if not ok:
+                    local.violation("contract:AEAD.encrypt:data+tag>PACKET_LENGTH_MAX:accepted",
+                                    "AEAD.encrypt(%d bytes, ad %d) returned %d bytes: %d+%d exceeds the %d-byte scratch buffer and the C code did not reject it"
+                                    % (n, adl, len(out), n, tag, mx), case)
+                    ctx.update(_suite_objs(suite))
+                    outcomes.add("enc-oversize-accepted")
+                elif out != ctx["ref_aead"].seal(data, ad, pn):
+                    local.violation("kat:AEAD.encrypt:result-differs-from-reference", "AEAD.encrypt(%d bytes, ad %d, pn %d) differs from the independent AEAD" % (n, adl, pn), case)
+                    ctx.update(_suite_objs(suite))
+                else:
+                    local.count("w2_valid_accepted")
+                    outcomes.add("enc-ok")
+            else:
+                if ok:
+                    local.count("obs_w2_in_contract_call_rejected")
+                else:
+                    local.count("w2_invalid_rejected")
+                    outcomes.add("enc-rejected")
+                _kat_aead(ctx, local, case, "encrypt")
+            # ---- decrypt n bytes: a genuine ciphertext of that total length, then garbage
+            inputs = [("garbage", PATTERN[900 + ai : 900 + ai + n], None)]
+            if n >= tag:
+                pt = PATTERN[11 : 11 + n - tag]
+                inputs.insert(0, ("genuine", ctx["ref_aead"].seal(pt, ad, pn), pt))
+            for kind, blob, pt in inputs:
+                local.count("w2_calls_checked")
+                okd = pre_decrypt(c, n)
+                try:
+                    out = ctx["aead"].decrypt(blob, ad, pn)
+                    exc = None
+                except Exception as e:  # call under observation
+                    exc, out = e, None
+                if exc is None:
+                    if not okd:
+                        local.violation("contract:AEAD.decrypt:length-outside-[TAG,PACKET_LENGTH_MAX]:accepted",
+                                        "AEAD.decrypt(%d bytes) returned instead of rejecting the length" % n, case)
+                        ctx.update(_suite_objs(suite))
+                    elif kind == "genuine" and out == pt:
+                        local.count("w2_valid_accepted")
+                        outcomes.add("dec-ok")
+                    else:
+                        local.violation("kat:AEAD.decrypt:result-differs-from-reference",
+                                        "AEAD.decrypt(%s %d bytes) returned %d bytes that the independent AEAD does not produce" % (kind, n, len(out)), case)
+                        ctx.update(_suite_objs(suite))
+                else:
+                    if okd and kind == "genuine":
+                        local.count("obs_w2_in_contract_call_rejected")
+                    else:
+                        local.count("w2_invalid_rejected")
+                        outcomes.add("dec-rejected")
+                    _kat_aead(ctx, local, case, "decrypt")
+        local.evaluations += 1
+        if outcomes:
+            local.nontrivial.add("w2aead:%s:%s:%s" % (suite, _lenb(n, c), "+".join(sorted(outcomes))))
+
+    sb.run(cases, fn, lambda item: _case_of(batch, item[0]), setup=lambda: _suite_objs(suite), use_fork=use_fork, group_of=group_of)
+
+
+def _apply_payload_lens(hlen, c, mode):
+    mx = c["PACKET_LENGTH_MAX"]
+    if mode == "all":
+        return list(range(0, 1601))
+    s = set(range(0, 41)) | set(range(1580, 1601)) | set(range(0, 1601, 37))
+    s |= set(range(max(0, mx - hlen - 24), min(1600, mx - hlen + 24) + 1))
+    return sorted(s)
+
+
+def _hdr(hlen, pnl, long_form):
+    if hlen == 0:
+        return b""
+    first = (0xC0 if long_form else 0x40) | (pnl - 1)
+    return bytes([first]) + PATTERN[2000 : 2000 + hlen - 1]
+
+
+def gen_w2_apply(batch, res, sb, watch, use_fork):
+    suite, mode = batch["suite"], batch["mode"]
+    c = constants()
+    hlens = batch["hset"] if "hset" in batch else list(range(batch["hlens"][0], batch["hlens"][1] + 1))
+    triples = []
+    if mode == "all":
+        seq = Grid(hlens, (1, 2, 3, 4), range(0, 1601))
+    else:
+        for h in hlens:
+            pl = _apply_payload_lens(h, c, mode)
+            for pnl in (1, 2, 3, 4):
+                for p in pl:
+                    triples.append((h, pnl, p))
+        seq = triples
+    cases = Indexed(seq, batch.get("only"))
+
+    def group_of(item):
+        h, pnl, p = item[1]
+        bad = pre_apply(c, _hdr(h, pnl, h & 1), b"\0" * min(p, 64) if p < 64 else PATTERN[:p])
+        return "apply:" + (bad or "valid")
+
+    def fn(ctx, item, local):
+        idx, (h, pnl, p) = item
+        header = _hdr(h, pnl, h & 1)
+        payload = PATTERN[3000 : 3000 + p]
+        bad = pre_apply(c, header, payload)
+        local.count("w2_calls_checked")
+        local.evaluations += 1
+        try:
+            out = ctx["hp"].apply(header, payload)
+            exc = None
+        except Exception as e:  # call under observation
+            exc, out = e, None
+        if exc is None:
+            if bad:
+                local.violation("contract:HeaderProtection.apply:%s:accepted" % bad,
+                                "HeaderProtection.apply(header %d bytes with %d-byte pn, payload %d bytes) returned %d bytes: %s and the C code did not reject it"
+                                % (h, pnl, p, len(out), bad), _case_of(batch, idx))
+                ctx.update(_suite_objs(suite))
+                oc = "accepted-" + bad
+            elif h > pnl and out != ctx["ref_hp"].apply(header, payload):
+                local.violation("kat:HeaderProtection.apply:result-differs-from-reference",
+                                "HeaderProtection.apply(header %d, pn %d, payload %d) differs from the independent implementation" % (h, pnl, p), _case_of(batch, idx))
+                ctx.update(_suite_objs(suite))
+                oc = "wrong"
+            elif len(out) != h + p:
+                local.violation("kat:HeaderProtection.apply:result-differs-from-reference", "result length %d != %d" % (len(out), h + p), _case_of(batch, idx))
+                oc = "wrong"
+            else:
+                local.count("w2_valid_accepted")
+                oc = "ok"
+        else:
+            if bad:
+                local.count("w2_invalid_rejected")
+                oc = "rejected-" + bad
+            else:
+                local.count("obs_w2_in_contract_call_rejected")
+                oc = "valid-rejected"
+            _kat_hp(ctx, local, _case_of(batch, idx), "apply")
+        total = h + p
+        local.nontrivial.add("w2apply:%s:pn%d:h%s:t%s:%s" % (suite, pnl, "0" if h == 0 else ("<=pn" if h <= pnl else "~%d" % (h // 32 * 32)), _lenb(total, c), oc))
+
+    sb.run(cases, fn, lambda item: _case_of(batch, item[0]), setup=lambda: _suite_objs(suite), use_fork=use_fork, group_of=group_of)
+
+
+def _protected_packet(ctx, total_len, off):
+    """a packet of total_len bytes; when it is long enough, a genuinely header-protected one
+    whose packet number field starts at off"""
+    body = bytearray(PATTERN[5000 : 5000 + total_len])
+    if total_len >= 1:
+        body[0] = 0x41 if (total_len & 1) else 0xC2
+    return bytes(body)
+
+
+def gen_w2_remove(batch, res, sb, watch, use_fork):
+    suite = batch["suite"]
+    c = constants()
+    near = Grid(range(0, 97), list(range(0, 129)) + [-1])
+    far_offsets = [1 << 16, (1 << 31) - 1, 1 << 31, (1 << 32) - 1, 1 << 32, (1 << 32) + 5, -(1 << 31), 1 << 63, (1 << 64) - 1]
+    far = [(pl, off) for pl in (0, 20, 96, 1500, 1520, 65535) for off in far_offsets]
+    far += [(65535, off) for off in (0, 1, 1479, 1480, 1495, 1496, 1497, 1500, 1600, 65000, 65514, 65515, 65516, 65531, 65535)]
+    far += [(pl, off) for pl in (1500, 1516, 1520, 1521, 1600, 2048) for off in (1470, 1480, 1495, 1496, 1497, 1498, 1500, 1501)]
+    allcases = [("near", near[i]) for i in range(len(near))] + [("far", x) for x in far]
+    n_near = len(near)
+
+    def group_of(item):
+        _, (pl, off) = item[1]
+        bad = pre_remove(c, b"\0" * min(pl, 70000), off)
+        return "remove:" + (bad or "valid")
+
+    def fn(ctx, item, local):
+        idx, (_region, (pl, off)) = item
+        packet = _protected_packet(ctx, pl, off)
+        bad = pre_remove(c, packet, off)
+        case = _case_of(batch, idx)
+        local.count("w2_calls_checked")
+        local.evaluations += 1
+        try:
+            out = ctx["hp"].remove(packet, off)
+            exc = None
+        except Exception as e:  # call under observation
+            exc, out = e, None
+        if exc is None:
+            if bad:
+                local.violation("contract:HeaderProtection.remove:%s:accepted" % bad,
+                                "HeaderProtection.remove(packet %d bytes, offset %d) returned (%d-byte header, pn): %s and the C code did not reject it"
+                                % (pl, off, len(out[0]), bad), case)
+                ctx.update(_suite_objs(suite))
+                oc = "accepted-" + bad
+            elif tuple(out) != tuple(ctx["ref_hp"].remove(packet, off)):
+                local.violation("kat:HeaderProtection.remove:result-differs-from-reference",
+                                "HeaderProtection.remove(packet %d, offset %d) differs from the independent implementation" % (pl, off), case)
+                ctx.update(_suite_objs(suite))
+                oc = "wrong"
+            else:
+                local.count("w2_valid_accepted")
+                oc = "ok"
+        else:
+            if bad or not (0 <= off < (1 << 32)):
+                local.count("w2_invalid_rejected")
+                oc = "rejected-" + (bad or "offset-not-representable")
+            else:
+                local.count("obs_w2_in_contract_call_rejected")
+                oc = "valid-rejected"
+            _kat_hp(ctx, local, case, "remove")
+        offb = "neg" if off < 0 else ("far" if off > 4096 else _lenb(off + 4, c))
+        local.nontrivial.add("w2remove:%s:pl%s:off%s:%s" % (suite, _lenb(pl, c) if pl > 100 else str(pl // 8 * 8), offb, oc))
+
+    setup = lambda: _suite_objs(suite)  # noqa: E731
+    if batch.get("only") is not None:
+        sb.run(Indexed(allcases, batch["only"]), fn, lambda item: _case_of(batch, item[0]), setup=setup, use_fork=use_fork, group_of=group_of)
+        return
+    sb.run(Indexed(allcases, range(n_near)), fn, lambda item: _case_of(batch, item[0]), setup=setup, use_fork=use_fork, group_of=group_of)
+    if res.violations:
+        # far offsets / 64 kB packets would overrun by kilobytes: only meaningful once the near grid is clean
+        res.count("w2_far_cases_skipped_after_near_violation", len(far))
+    else:
+        sb.max_reforks += len(far)
+        sb.run(Indexed(allcases, range(n_near, len(allcases))), fn, lambda item: _case_of(batch, item[0]), setup=setup, use_fork=use_fork, group_of=group_of)
+
+
+def gen_w2_ctor(batch, res, sb, watch, use_fork):
+    """constructors with every key / iv length and unknown cipher names: either a Python exception
+    or an object that works (and matches the reference when the parameters are the standard ones)"""
+    names_aead = [b"aes-128-gcm", b"aes-256-gcm", b"chacha20-poly1305", b"aes-128-ecb", b"no-such-cipher", b"", b"aes-128-gcm\0x"]
+    names_hp = [b"aes-128-ecb", b"aes-256-ecb", b"chacha20", b"aes-128-gcm", b"no-such-cipher", b""]
+    cases = [("aead", nm, kl, il) for nm in names_aead for kl in list(range(0, 41)) for il in (0, 1, 8, 11, 12, 13, 16)]
+    cases += [("hp", nm, kl, 0) for nm in names_hp for kl in range(0, 70)]
+    seq = Indexed(cases, batch.get("only"))
+
+    def fn(ctx, item, local):
+        from aioquic._crypto import AEAD, HeaderProtection
+
+        idx, (what, name, kl, il) = item
+        case = _case_of(batch, idx)
+        key = PATTERN[40 : 40 + kl]
+        iv = PATTERN[90 : 90 + il]
+        local.evaluations += 1
+        local.count("w2_calls_checked")
+        try:
+            obj = AEAD(name, key, iv) if what == "aead" else HeaderProtection(name, key)
+        except Exception as exc:  # constructor under observation
+            local.count("w2_invalid_rejected")
+            local.nontrivial.add("w2ctor:%s:%s:rejected:%s" % (what, name.decode("latin1")[:20], type(exc).__name__))
+            return
+        ref = None
+        if what == "aead":
+            from ..c04_util import ref_for_aead
+
+            ref = ref_for_aead(name, key, iv)
+            try:
+                ct = obj.encrypt(KAT_PT, KAT_AD, 9)
+                pt = obj.decrypt(ct, KAT_AD, 9)
+            except Exception:
+                local.count("obs_w2_ctor_object_raises")
+                return
+            if ref is not None and (ct != ref.seal(KAT_PT, KAT_AD, 9) or pt != KAT_PT):
+                local.violation("kat:AEAD.encrypt:result-differs-from-reference", "AEAD(%r, key %d, iv %d) constructed but differs from the reference" % (name, kl, il), case)
+                return
+        else:
+            from ..c04_util import ref_for_hp
+
+            ref = ref_for_hp(name, key)
+            try:
+                out = obj.apply(KAT_HDR, KAT_PAYLOAD)
+                obj.remove(out, len(KAT_HDR) - 2)
+            except Exception:
+                local.count("obs_w2_ctor_object_raises")
+                return
+            if ref is not None and out != ref.apply(KAT_HDR, KAT_PAYLOAD):
+                local.violation("kat:HeaderProtection.apply:result-differs-from-reference", "HeaderProtection(%r, key %d) constructed but differs from the reference" % (name, kl), case)
+                return
+        local.count("w2_valid_accepted" if ref is not None else "obs_w2_nonstandard_parameters_accepted")
+        local.nontrivial.add("w2ctor:%s:%s:k%d:iv%d:constructed" % (what, name.decode("latin1")[:20], kl, il))
+
+    sb.run(seq, fn, lambda item: _case_of(batch, item[0]), use_fork=use_fork, group_of=lambda item: "ctor:" + item[1][0])
+
+
 GENERATORS = {
     "probe": gen_probe,
     "w1_grid": gen_w1_grid,
     "w1_seq": gen_w1_seq,
     "w1_ctor": gen_w1_ctor,
+    "w2_aead": gen_w2_aead,
+    "w2_apply": gen_w2_apply,
+    "w2_remove": gen_w2_remove,
+    "w2_ctor": gen_w2_ctor,
 }
